@@ -1007,6 +1007,13 @@ int main(int argc, char **argv)
     F2v.back().sig = [](const vec_basic &a, const B &) -> std::string {
         if (eq(*add(a[0], a[1]), *one))
             return "beta(x,y|x+y=1)";
+        // gamma_multiple_2 is called on x, y or x+y: same int overflow as gamma(23/2)
+        for (const B &h : {a[0], a[1], add(a[0], a[1])})
+            if (is_a<Rational>(*h)) {
+                const rational_class &q = down_cast<const Rational &>(*h).as_rational_class();
+                if (get_den(q) == 2 && (get_num(q) >= 21 || get_num(q) <= -21))
+                    return "beta(half-integer,|x|>10)";
+            }
         return "";
     };
     F2v.push_back(F2("kronecker_delta", kronecker_delta, lit2<KroneckerDelta>()));
